@@ -116,6 +116,15 @@ def oracle(line: str, obs: Obs):
     cfg = ";".join(x for x in cfg.split(";") if not x.startswith("midroute=") and not x.startswith("NODE midroute=")) if "midroute=" in cfg else cfg
     if not cfg.startswith("NODE "):
         cfg = "NODE " + cfg
+    # at the probe (a quiescent point: every earlier event has been followed by I/O rounds until nothing moved) no closed
+    # connection is still registered -- a connection the node gave up on but never unregistered keeps its socket for good
+    for ev, lines_ in obs.blocks:
+        if ev == mark:
+            for l in lines_:
+                if l.startswith("CONN ") and kv(l).get("state") == "CLOSED" and kv(l).get("live") == "1":
+                    fails.append({"what": "a connection the node has closed is still registered (its socket is never closed: "
+                                          "capacity consumed for good)", "event": mark, "real": l, "kind": "leak"})
+            break
     got = probe_view(obs)
     want = fresh_view(cfg, int(limit), kind, int(ids), peer)
     if got != want:
@@ -454,6 +463,11 @@ def scenarios(rng: random.Random, tier: str) -> list[str]:
                 out.append(build(rng, kind, limit, rng.randint(1, 3)))
             for _ in range(reps):
                 out.append(build(rng, kind, limit, rng.randint(0, 2), shutdown=True))
+            # the same with default peers in the realm's routing table (the peer that is lost / the peer of the probe)
+            for _ in range(reps):
+                for which in ("peer1.x", "peer3.x"):
+                    out.append(build(rng, kind, limit, rng.randint(1, 2), rng.choice(["in", "ex"])).replace(
+                        f"peer:{which},{REALM},0,0,30,1,0", f"peer:{which},{REALM},0,0,30,1,1"))
     return out
 
 
